@@ -38,10 +38,13 @@
    nobody holds or awaits k). The theorems of THIS file are about programs
    without ClearKey: after a ClearKey the key gets a new mutex, so (b) cannot
    hold across it.
-   Not stated as a theorem: cross-key PROGRESS in the sense of a bound on the
-   length of the map's internal critical section; (a) and (d) give the
-   enabledness part (holding or awaiting other keys never disables a step). *)
-From Typ Require Import SyncMap.Model SyncMap.Inv SyncMap.KeyedMutex SyncMap.InsertOnly.
+   (e) cross-key PROGRESS as a bound (SyncMap/Progress.v): a thread that cannot
+       take a step is waiting for the Map's internal mutex m.mu held by ANOTHER
+       thread, or stands at the blocking Lock/RLock step of key k while k itself
+       is held incompatibly; the holder of m.mu can always take a step and
+       releases m.mu within 3 * (keys of the read map) + 6 of its own steps,
+       whatever the others do. Holding or awaiting other keys appears nowhere. *)
+From Typ Require Import SyncMap.Model SyncMap.Inv SyncMap.KeyedMutex SyncMap.InsertOnly SyncMap.Progress.
 
 Theorem C09_try_never_blocks : forall um f, is_try (f_pc f) = true -> step_post um f <> None.
 Proof. exact try_never_blocks. Qed.
@@ -270,6 +273,63 @@ Theorem C09_rlock_succeeds_when_key_not_write_held : forall progs sched t ch f,
              holds_shared c' t (key_of (f_call f)).
 Proof. exact rlock_succeeds_when_key_not_write_held. Qed.
 Print Assumptions C09_rlock_succeeds_when_key_not_write_held.
+
+(* ================= cross-key progress ================= *)
+(* [cs_measure s f]: what is left of the critical section of m.mu for the frame f of its holder;
+   at most 3 * (number of keys of the read map) + 6 ... *)
+Theorem C09_critical_section_bound : forall s f, in_cs f = true -> WFL s f ->
+  cs_measure s f <= 3 * size (read_m s) + 6.
+Proof. exact cs_measure_bound. Qed.
+Print Assumptions C09_critical_section_bound.
+
+(* ... the holder of m.mu is enabled (for a suitable iteration choice: none of its steps blocks), and its
+   step either releases m.mu or strictly decreases the measure ... *)
+Theorem C09_mu_holder_step : forall c t f i,
+  IOInv c -> IterOK c -> c_panicked c = false -> c_insts c = [i] -> top_frame c t = Some f -> in_cs f = true ->
+  exists ch c' i', step c t ch = Some c' /\ IOInv c' /\ IterOK c' /\ c_panicked c' = false /\ c_insts c' = [i'] /\
+    (i_mu i' = None \/ exists f', top_frame c' t = Some f' /\ in_cs f' = true /\ cs_measure (i_st i') f' < cs_measure (i_st i) f).
+Proof. exact holder_step. Qed.
+Print Assumptions C09_mu_holder_step.
+
+(* ... which the steps of the other threads cannot increase: they leave the holder's frame and the state
+   of the Map alone ... *)
+Theorem C09_other_steps_keep_critical_section : forall c t f i t2 ch c',
+  IOInv c -> c_insts c = [i] -> top_frame c t = Some f -> in_cs f = true -> t2 <> t -> step c t2 ch = Some c' ->
+  top_frame c' t = Some f /\ exists i', c_insts c' = [i'] /\ i_st i' = i_st i.
+Proof. exact other_step_keeps_cs. Qed.
+Print Assumptions C09_other_steps_keep_critical_section.
+
+(* ... hence: in every reachable configuration (all insert-only programs, all schedules) in which thread t
+   holds m.mu, t alone can run to the release of m.mu in at most 3 * |read map| + 6 steps. *)
+Theorem C09_mu_released_within_bound : forall progs sched t i, io_progs progs ->
+  let c := run_schedule (init_config 1 progs) sched in
+  c_panicked c = false -> c_insts c = [i] -> i_mu i = Some t ->
+  exists solo, Forall (fun x : nat * Z => x.1 = t) solo /\ length solo <= 3 * size (read_m (i_st i)) + 6 /\
+    exists i', c_insts (run_schedule c solo) = [i'] /\ i_mu i' = None.
+Proof. exact mu_released_within_bound. Qed.
+Print Assumptions C09_mu_released_within_bound.
+
+(* What a thread can wait for: m.mu in the hands of another thread (see above), or - at the blocking
+   Lock / RLock step of a call on k - key k itself. No other key occurs. *)
+Theorem C09_blocked_only_by_mu_or_own_key : forall progs sched t f i,
+  io_progs progs -> fresh_values progs -> disc_from (init_config 1 progs) sched ->
+  let c := run_schedule (init_config 1 progs) sched in
+  c_insts c = [i] -> top_frame c t = Some f -> (forall ch, step c t ch = None) ->
+  (is_lock_label (f_pc f) = true /\ exists t', t' <> t /\ i_mu i = Some t') \/
+  ((f_pc f = KM_Lock \/ f_pc f = KRW_Lock) /\ exists t2 b, (t2, key_of (f_call f), b) ∈ holders c) \/
+  (f_pc f = KRW_RLock /\ exists t2, holds_excl c t2 (key_of (f_call f))).
+Proof. exact blocked_only_by_mu_or_own_key. Qed.
+Print Assumptions C09_blocked_only_by_mu_or_own_key.
+
+(* Non-vacuity: thread 0 (LockKey 3, after two keys were promoted to the read map) is inside dirtyLocked's
+   loop, 9 <= 3*2+6 steps from the unlock; thread 1 (LockKey 9 - another key) waits for m.mu; six steps of
+   thread 0 later m.mu is free and thread 1 takes it. *)
+Example C09_example_progress :
+  let c := run_schedule (init_config 1 pr_ex_progs) pr_ex_sched in
+  pr_ex_obs c = ([Some Dirty_iter; Some LOS_lock], (Some 0%nat, 2, 9)) /\ step c 1 0 = None /\
+  pr_ex_obs (run_schedule c pr_ex_solo) = ([Some KM_Lock; Some LOS_lock], (None, 2, 1)) /\
+  pr_ex_obs (run_schedule c (pr_ex_solo ++ [(1%nat, 0%Z)])) = ([Some KM_Lock; Some LOS_read2], (Some 1%nat, 2, 1)).
+Proof. vm_compute. repeat split. Qed.
 
 (* Non-vacuity: two threads race LockKey(7); UnlockKey(7) on a never-seen key (alternating steps, so
    both are inside LoadOrStore at the same time). The run is disciplined; after 10 rounds thread 0
